@@ -117,6 +117,7 @@ type ArrayNode struct {
 type HashNode struct {
 	ExpressionNode
 	items map[Node]Node
+	order []Node // the keys of items in source order (set by the parser)
 }
 
 // ConditionalNode represents ternary operator (condition ? true : false)
